@@ -155,8 +155,15 @@ Section Faults.
           eapply vok_incl; [|replace off with (off - 0) at 1 by lia; apply (go_links_fault_view off (l :: ls) 0 IH Hkids)].
           intros x Hx. rewrite preorder_cons. right. exact Hx.
         * destruct Hm as [Hm|(x & Hx & Hf)]; [discriminate|].
-          cbn [sview]. split; [eexists; split; [reflexivity|discriminate]|]. split; [discriminate|].
-          intros e' [= <-]. exists x. split; [rewrite preorder_cons; right; exact Hx|exact Hf].
+          remember (seek_fault fault (node_meta d) off 0 (l :: ls) (usizes_prefix fault (usize fault) (node_meta d) 0 (l :: ls)) 0) as sf eqn:Es.
+          destruct sf as [es|].
+          -- symmetry in Es. destruct (seek_fault_witness fault (node_meta d) off (l :: ls) 0%nat _ 0 es Es) as (t & Ht & Hft).
+             cbn [sview]. split; [eexists; split; [reflexivity|discriminate]|]. split; [discriminate|].
+             intros e' [= <-]. exists t. split; [|exact Hft]. rewrite preorder_cons. right. cbn [tl].
+             apply in_map_iff in Ht. destruct Ht as (lk & <- & Hlk). apply in_flat_map. exists lk. split; [exact Hlk|].
+             rewrite preorder_cons. left. reflexivity.
+          -- cbn [sview]. split; [eexists; split; [reflexivity|discriminate]|]. split; [discriminate|].
+             intros e' [= <-]. exists x. split; [rewrite preorder_cons; right; exact Hx|exact Hf].
         * discriminate.
   Qed.
 End Faults.
